@@ -231,6 +231,10 @@ class MutableAttrMap:
             ).format(attr_id, item._type_id)
             logger.warning(msg)
             raise AttrMetadataError(attr_id) from e
+        # Item which is not loaded (e.g. its type is absent in current source)
+        # has no source-specific data, thus it exposes no attribute values
+        if not item._is_loaded:
+            raise BaseValueError(attr_id)
         # Base attribute value which we'll use for modification
         try:
             value = item._type_attrs[attr_id]
